@@ -325,6 +325,59 @@ def gen_decl(rng, typ, dims, attr, pars, style):
     return {"k": "lit", "v": gen_lit(rng, typ, attr)}
 
 
+def dmat_rows(d):
+    """element values (rows) of a constant array expression that reaches the model as a DM: the oracle's own
+    evaluation of `diagonal(l) * fill(c, n, m) * diagonal(r)` ((i,j) -> l_i * c * r_j), of its transpose / negation
+    and of `c * linspace(a, b, n)` (i -> c * (a + i*(b-a)/(n-1)))"""
+    if d["f"] == "linspace":
+        a, b, n = jx(d["a"]), jx(d["b"]), d["n"]
+        c = jx(d["c"]) if d.get("c") is not None else Fraction(1)
+        return [[c * (a + (b - a) * i / (n - 1))] for i in range(n)]
+    if d["f"] == "prod":
+        n, m = d["shape"]
+        l = [jx(x) for x in d["l"]] if d.get("l") is not None else [Fraction(1)] * n
+        r = [jx(x) for x in d["r"]] if d.get("r") is not None else [Fraction(1)] * m
+        if len(l) != n or len(r) != m:
+            raise HarnessError("bad constant product %r" % (d,))
+        sg = -1 if d.get("neg") else 1
+        return [[sg * l[i] * jx(d["c"]) * r[j] for j in range(m)] for i in range(n)]
+    return [[jx(x) for x in row] for row in d["rows"]]
+
+
+def gen_dmconst(rng, typ, dims):
+    """a NON-uniform constant array expression CasADi folds to a DM of the variable's shape ([n], [n,1], [1,n], [n,m])"""
+    def num(nonzero=True):
+        while True:
+            v = Fraction(rng.randint(-5, 5)) if typ == "Integer" else dy(rng, -6, 6)
+            if v != 0 or not nonzero:
+                return v
+
+    def distinct(k):
+        xs = [num() for _ in range(k)]
+        if len(set(xs)) == 1:
+            xs[rng.randrange(k)] += 1 if xs[0] != -1 else 2
+        return xs
+
+    if len(dims) == 1 and typ == "Real" and rng.random() < 0.4:
+        n = dims[0]
+        a = dy(rng, -6, 6)
+        step = dy(rng, -3, 3, den=(1, 1, 2))
+        while step == 0:
+            step = dy(rng, -3, 3, den=(1, 1, 2))
+        c = rng.choice([None, None, Fraction(2), Fraction(-3), Fraction(1, 2)])
+        d = {"k": "dmat", "f": "linspace", "a": xj(a), "b": xj(a + (n - 1) * step), "n": n, "c": None if c is None else xj(c)}
+    else:
+        n, m = (dims[0], 1) if len(dims) == 1 else dims
+        left = n > 1 and (m == 1 or rng.random() < 0.6)
+        right = m > 1 and (not left or rng.random() < 0.5)
+        d = {"k": "dmat", "f": "prod", "shape": [n, m], "vec": len(dims) == 1,
+             "l": [xj(x) for x in distinct(n)] if left else None, "c": xj(num()),
+             "r": [xj(x) for x in distinct(m)] if right else None,
+             "neg": rng.random() < 0.2, "tr": len(dims) == 2 and rng.random() < 0.2}
+    d["rows"] = [[xj(x) for x in row] for row in dmat_rows(d)]
+    return d
+
+
 def gen_case(rng, stream="main"):
     style = rng.choice(["affine", "rebuild", "rebuild", "bilinear", "cubic", "piecewise", "mixed", "nonaffine", "plain"]) if stream == "main" else "affine"
     STRICT[0] = style in ("rebuild", "bilinear", "cubic", "piecewise")
@@ -437,6 +490,24 @@ def _gen_case(rng, stream, style):
                     attrs[a] = {"k": "arrexpr", "elems": elems, "bare": any(e["op"] == "par" for e in elems)}
             kind = rng.choice(["alg", "alg", "state", "input"])
             vars_.append({"name": "x%d" % (nv + 1 + j), "kind": kind, "type": "Real", "dims": dims, "attrs": attrs})
+    if stream == "expand":
+        # arrays of every shape ([n], [n,1], [1,n], [n,m]) whose attributes are non-uniform constant array
+        # expressions (a DM in the model), array literals, fill/ones/zeros, scalars with `each` or parameter
+        # expressions; such models are also translated with expand_vectors (one scalar variable per element)
+        for j in range(rng.choice([2, 3, 4])):
+            typ = "Real" if rng.random() < 0.75 else "Integer"
+            n, m = rng.choice([2, 3, 4]), rng.choice([2, 3])
+            dims = rng.choice([[n, 1], [n, 1], [n, 1], [1, n], [1, n], [n, m], [n, m], [n]])
+            kind = rng.choice(["alg", "alg", "state", "input", "constant"]) if typ == "Real" else rng.choice(["alg", "input"])
+            attrs = {}
+            for a in (["min", "max", "start", "nominal"] if typ == "Real" else ["min", "max", "start"]):
+                if rng.random() < 0.6:
+                    attrs[a] = gen_dmconst(rng, typ, dims) if rng.random() < 0.6 else gen_decl(rng, typ, dims, a, pars, style)
+            if rng.random() < 0.3:
+                attrs["fixed"] = gen_decl(rng, typ, dims, "fixed", pars, style)
+            if kind == "constant":
+                attrs["value"] = gen_dmconst(rng, typ, dims) if rng.random() < 0.7 else gen_decl(rng, typ, dims, "value", [], "plain")
+            vars_.append({"name": "x%d" % (nv + 1 + j), "kind": kind, "type": typ, "dims": dims, "attrs": attrs})
     allv = pars + vars_
     order = list(range(len(vars_)))
     rng.shuffle(order)
@@ -460,7 +531,10 @@ def _gen_case(rng, stream, style):
         pvecs[0] = [xj(0)] * len(pvecs[0])
     if pars and style in ("cubic", "bilinear", "piecewise"):
         pvecs[-1] = [x if jx(x) != 0 else xj(rng.choice([1, -1, 2, 3, Fraction(1, 2)])) for x in pvecs[-1]]
-    return {"stream": stream, "vars": allv, "npar": len(pars), "pvecs": pvecs}
+    case = {"stream": stream, "vars": allv, "npar": len(pars), "pvecs": pvecs}
+    if stream == "expand" or (stream == "main" and rng.random() < 0.15):
+        case["expand"] = True         # additionally observed after simplify({"expand_vectors": True})
+    return case
 
 
 # ---- Modelica text --------------------------------------------------------------------------
@@ -513,6 +587,23 @@ def decl_text(d, dims, pars):
         return "{" + ", ".join(expr_text(e, pars) for e in d["elems"]) + "}"
     if k == "notlit":
         return "not true" if d["v"] else "not false"
+    if k == "dmat" and d["f"] == "linspace":
+        t = "linspace(%s, %s, %d)" % (a09.mo_num(jx(d["a"])), a09.mo_num(jx(d["b"])), d["n"])
+        if d.get("c") is not None:
+            c = a09.mo_num(jx(d["c"]))
+            t = "%s * %s" % (c if jx(d["c"]) > 0 else "(%s)" % c, t)
+        return t
+    if k == "dmat" and d["f"] == "prod":
+        n, m = d["shape"]
+        l, r = d.get("l"), d.get("r")
+        if d.get("tr"):
+            n, m, l, r = m, n, r, l
+        vec = lambda xs: "diagonal({%s})" % ", ".join(a09.mo_num(jx(x)) for x in xs)
+        fill = "fill(%s, %s)" % (a09.mo_num(jx(d["c"])), str(n) if d.get("vec") else "%d, %d" % (n, m))
+        t = " * ".join(([vec(l)] if l is not None else []) + [fill] + ([vec(r)] if r is not None else []))
+        if d.get("tr"):
+            t = "transpose(%s)" % t
+        return "-" + t if d.get("neg") else t
     if k == "dmat":
         if d["f"] == "identity":
             return "identity(%d)" % len(d["d"])
@@ -647,8 +738,10 @@ def declared(v, a, pars, off, pv):
     elif d["k"] == "notlit":
         xs = [Fraction(0 if d["v"] else 1)]
     elif d["k"] == "dmat":
-        rows = d["rows"]
-        xs = [jx(rows[i][j]) for j in range(len(rows[0])) for i in range(len(rows))]
+        rows = dmat_rows(d)
+        if rows != [[jx(x) for x in row] for row in d["rows"]]:
+            raise HarnessError("constant array expression and its element table differ: %r" % (d,))
+        xs = [rows[i][j] for j in range(len(rows[0])) for i in range(len(rows))]
     elif d["k"] == "expr":
         xs = ev(d["e"], pars, off, pv)
     elif d["k"] == "arrexpr":
@@ -731,6 +824,18 @@ def run_impl(case):
             raise
         return {"raised": "metadata:" + type(e).__name__, "msg": str(e)[:300]}
     obs["raised"] = None
+    if case.get("expand"):
+        # the same model translated with expand_vectors: one scalar variable per array element
+        try:
+            model = gen.generate(parser.parse(text, bypass_cache=True), "M", {})
+            model.simplify({"expand_vectors": True})
+            obs["expanded"] = observe(model, pvecs)
+        except HarnessError:
+            raise
+        except Exception as e:
+            if not impl_frames(e.__traceback__):
+                raise
+            return {"raised": "expand_vectors:" + type(e).__name__, "msg": str(e)[:300]}
     return obs
 
 
@@ -812,6 +917,78 @@ def oracle(case, obs):
     return None
 
 
+def elements(v):
+    """[(name of the scalar variable element e of v is expanded into, column-major position of e)] in Modelica's
+    index notation x[i], x[i,j]; a scalar is its own only element"""
+    dims = v["dims"]
+    if not dims:
+        return [(v["name"], 0)]
+    if len(dims) == 1:
+        return [("%s[%d]" % (v["name"], i + 1), i) for i in range(dims[0])]
+    return [("%s[%d,%d]" % (v["name"], i + 1, j + 1), i + j * dims[0]) for i in range(dims[0]) for j in range(dims[1])]
+
+
+def oracle_expanded(case, obs):
+    """the property on the model with expand_vectors: element [i,j] of every array variable is a scalar variable
+    carrying element [i,j] of every declared attribute (Variable objects and metadata rows)"""
+    pars = case["vars"][:case["npar"]]
+    off = par_offsets(pars)
+    pvecs = [[jx(x) for x in pv] for pv in case["pvecs"]]
+    where = {}
+    for v in case["vars"]:
+        for name, pos in elements(v):
+            where[name] = (v, pos)
+            o = obs["vars"].get(name)
+            if o is None:
+                return ("expand_vectors: variable %s is missing from the model's variable lists" % name, name, sorted(obs["vars"]))
+            if o["list"] != KIND_LIST[v["kind"]]:
+                return ("expand_vectors: %s is in list" % name, KIND_LIST[v["kind"]], o["list"])
+            if o["shape"] != [1, 1]:
+                return ("expand_vectors: symbol of %s has shape" % name, [1, 1], o["shape"])
+            if o["ptype"] != PT[v["type"]]:
+                return ("expand_vectors: python_type of %s %s" % (v["type"], name), PT[v["type"]], o["ptype"])
+            for a in ORDER:
+                got = o["attrs"][a]
+                d = v["attrs"].get(a)
+                if d is None and a in ("value", "start", "min", "max", "nominal"):
+                    want_t = {"value": "float", "start": "_DefaultValue", "min": "float", "max": "float", "nominal": "int"}[a]
+                    if got["t"] != want_t:
+                        return ("expand_vectors: undeclared %s of %s is not the default object" % (a, name), want_t, got["t"])
+                if got["v"] is None:
+                    return ("expand_vectors: %s of %s cannot be evaluated (%s)" % (a, name, got["t"]), "numbers", got["t"])
+                if got["t"] in ("int", "float", "bool") and a != "fixed" and d is not None:
+                    finite = all(not isinstance(x, str) for vals in got["v"] for x in vals)
+                    if v["type"] == "Integer" and finite and got["t"] == "float":
+                        return ("expand_vectors: %s of Integer %s is stored as a Python float" % (a, name), "int", got["t"])
+                for k, pv in enumerate(pvecs):
+                    want = [declared(v, a, pars, off, pv)[pos]]
+                    if got["v"][k] != want:
+                        return ("expand_vectors: Variable attribute %s of %s at p=%s" % (a, name, [show(x) for x in pv]),
+                                [show(x) for x in want], [show(x) for x in got["v"][k]])
+    for name in obs["lists"]["der_states"]:
+        o = obs["vars"][name]
+        for a in ORDER:
+            if o["attrs"][a]["v"][0] != [DEFAULT[a]]:
+                return ("expand_vectors: default %s of %s" % (a, name), show(DEFAULT[a]), [show(x) for x in o["attrs"][a]["v"][0]])
+    for k, pv in enumerate(pvecs):
+        for li, lst in enumerate(a09.LISTS):
+            rows = obs["meta"][k][li]
+            names = obs["lists"][lst]
+            for r, name in enumerate(names):
+                if name not in where:
+                    return ("expand_vectors: unexpected variable %s in %s" % (name, lst), None, name)
+                v, pos = where[name]
+                want = [declared(v, a, pars, off, pv)[pos] for a in ORDER]
+                have = rows[r] if r < len(rows) else None
+                if have != want:
+                    return ("expand_vectors: variable_metadata_function, list %s, row %d (%s) at p=%s"
+                            % (lst, r, name, [show(x) for x in pv]),
+                            [show(x) for x in want], None if have is None else [show(x) for x in have])
+            if len(rows) != len(names):
+                return ("expand_vectors: variable_metadata_function, list %s has %d rows" % (lst, len(rows)), len(names), len(rows))
+    return None
+
+
 def nontrivial(case):
     for v in case["vars"]:
         for a, d in v["attrs"].items():
@@ -871,6 +1048,12 @@ def check_case(ctx, case, drv):
     if bad:
         ctx.violation(bad[0], dict(case, text=build_text(case)), expected=bad[1], observed=bad[2], kind="input")
         return
+    if "expanded" in obs:
+        ctx.count("expand_vectors")
+        bad = oracle_expanded(case, obs["expanded"])
+        if bad:
+            ctx.violation(bad[0], dict(case, text=build_text(case)), expected=bad[1], observed=bad[2], kind="input")
+            return
     if drv is not None:
         compare_model(ctx, case, obs, drv)
 
@@ -884,6 +1067,8 @@ def stats(ctx, case):
             ctx.count("declared-in-%s-modified-%d" % (v["wrap"]["how"], len(v["wrap"]["mods"])))
         for a, d in v["attrs"].items():
             ctx.count("decl-" + d["k"])
+            if d["k"] == "dmat":
+                ctx.count("dmat-%s-%s" % (d["f"], "x".join("n" if x > 1 else "1" for x in v["dims"])))
             if d["k"] == "expr":
                 ctx.count("expr-" + ("affine" if affine(d["e"]) else "nonaffine"))
 
@@ -910,7 +1095,7 @@ def run(ctx):
     for c in corpus.load("C13"):
         ctx.count("corpus")
         check_case(ctx, c["case"] if "case" in c else c, drv)
-    plan = [("array-expr", 30 if quick else 300), ("main", 450 if quick else 4000)]
+    plan = [("array-expr", 30 if quick else 300), ("expand", 50 if quick else 500), ("main", 450 if quick else 4000)]
     for stream, n in plan:
         for i in range(n):
             if ctx.time_left() < 0:
@@ -924,14 +1109,14 @@ def run(ctx):
 
 def search(ctx):
     while ctx.time_left() > 0 and not ctx.violations:
-        case = gen_case(ctx.rng, "main")
+        case = gen_case(ctx.rng, ctx.rng.choice(["main", "main", "expand"]))
         ctx.case(case, nontrivial=nontrivial(case), key=[build_text(case), case["pvecs"]])
         ctx.count("search")
         obs = run_impl(case)
         if obs["raised"]:
             ctx.violation("%s raised on a generated model" % obs["raised"], dict(case, text=build_text(case)), observed=obs)
             continue
-        bad = oracle(case, obs)
+        bad = oracle(case, obs) or ("expanded" in obs and oracle_expanded(case, obs["expanded"])) or None
         if bad:
             ctx.violation(bad[0], dict(case, text=build_text(case)), expected=bad[1], observed=bad[2])
 
